@@ -18,6 +18,7 @@
  R6 key availability: whenever unexpected units are grouped by a key (county / district), that key is recovered for them; the key is
    re-derived from the unit id only on rows taken from the feed - never on a frame that also holds baseline units (the non-modelled ones
    share the third frame), whose baseline keys would be overwritten and whose votes would move to the group the id spells (R6.baseline-keys);
+ R8 feed-complete: the frame handed to the data handler as the feed is the caller's feed, no row filtered away before;
  R7 feed-private: get_estimates never writes to the caller's feed frame (the estimandizer computes derived result columns only when
     absent, so a feed object refreshed in place and passed again would otherwise report the previous poll's derived columns).
 """
@@ -61,6 +62,7 @@ def check(ctx):
     merge_keys(ctx, "C01.R5")
     key_availability(ctx, "C01.R6")
     _feed_private(ctx)
+    _feed_complete(ctx)
 
 
 # ---------------------------------------------------------------------------------------------
@@ -699,3 +701,57 @@ def _feed_private(ctx):
            "the feed frame the caller passed is never written to: every derived column is computed from this call's counts" if not hits
            else f"the caller's feed frame is modified in place ({hits[0][1]}): a feed object that is refreshed and passed again keeps the derived "
                 f"columns of the previous poll (they are only computed when absent), which are then reported as counted votes")
+
+
+def _feed_complete(ctx):
+    """R8.feed-complete: "every unit in the feed appears exactly once in the unit table" starts with every row of the feed reaching the data
+    handler: the frame ModelClient.get_estimates hands to CombinedDataHandler as current_data is the caller's feed (converted to a frame,
+    copied) - no row of it is filtered away on the way (a unit of a state the office is not configured for is an unexpected unit, not noise)."""
+    ge = ctx.fn("elexmodel.client", "ModelClient.get_estimates")
+    b = ctx.builder(inline=lambda caller, call, callee: callee.name not in ("__init__",) and callee.cls is not None and callee.cls.name == "PreprocessedDataHandler")
+    gs = b.summarize(ge)
+    ctor = None
+    for t in [t for _, _, t, _ in gs.assigns] + [t for _, t, _ in gs.effects]:
+        for x in ir.walk(t):
+            if ctor is None and x[0] == "call" and x[1][0] == "global" and x[1][1].endswith(":CombinedDataHandler"):
+                ctor = x
+    ctx.sites("C01.R8", 1 if ctor else 0, 1, "construction of CombinedDataHandler in get_estimates")
+    kw = dict(ctor[3])
+    a = kw.get("current_data", ctor[2][1] if len(ctor[2]) > 1 else None)
+    ctx.require(a is not None, f"{ge.where()}: CombinedDataHandler is built without a feed")
+    FEED = ("param", "current_data")
+
+    def spine(t, depth=0):
+        """None when every row of the feed reaches t, else the step that leaves rows out"""
+        if depth > 40:
+            raise AnalysisError(f"{ge.where()}: feed argument too deep")
+        k = t[0]
+        if t == FEED:
+            return None
+        if k == "phi" or k == "ifexp":
+            return spine(t[2], depth + 1) or spine(t[3], depth + 1)
+        if k == "call" and t[1] == ("global", "pandas.DataFrame") and t[2]:
+            # DataFrame(current_data[1:], columns=current_data[0]): the list-of-lists form of the feed, header row split off
+            src = t[2][0]
+            if src[0] == "sub" and src[1] == FEED and src[2][0] == "slice" and src[2][1] == ("const", 1) and src[2][2] == ("const", None):
+                return None
+            return spine(src, depth + 1)
+        if k == "call" and t[1][0] == "attr" and t[1][2] in ("copy", "reset_index", "rename", "astype", "fillna", "assign", "sort_values", "convert_dtypes"):
+            return spine(t[1][1], depth + 1)
+        if k in ("setitem", "setattr", "mut"):
+            return spine(t[1], depth + 1)
+        if k == "sub" and t[2][0] in ("list", "const", "fstr"):
+            return spine(t[1], depth + 1)
+        if k == "sub":
+            return f"row filter [{ir.show(t[2], maxdepth=3)[:100]}]"
+        if k == "call" and t[1][0] == "attr" and t[1][2] in ("query", "dropna", "drop_duplicates", "head", "tail", "sample", "merge", "join"):
+            return f".{t[1][2]}(..)"
+        if k == "call":
+            # an opaque call that is given the feed and whose result is used in its place
+            if any(x == FEED for x in ir.walk(t)):
+                return f"{ir.show(t[1], maxdepth=2)[:60]}(..) stands between the feed and the data handler and was not understood as row-preserving"
+        raise AnalysisError(f"{ge.where()}: feed argument of CombinedDataHandler not understood: {ir.show(t, maxdepth=3)[:160]}")
+    why = spine(a)
+    ctx.ob("C01.R8.feed-complete", f"{ge.qualname}|every row of the feed reaches the data handler", why is None, ge.where(),
+           "CombinedDataHandler gets the caller's feed (as a frame), all rows" if why is None
+           else f"{why} removes rows of the feed before the data handler sees them: such a unit is in no frame, its votes are counted nowhere")
